@@ -495,16 +495,16 @@ theorem collectAux_length (d : DepFacts) (vars : List VarSpec) (funcs : List Fun
   | cons v vs ih => simp [collectAux, ih]
 
 theorem collectAux_getElem? (d : DepFacts) (vars : List VarSpec) (funcs : List Func) (k : Nat) (vs : List VarSpec)
-    (i : Nat) : (collectAux d vars funcs k vs)[i]? = vs[i]?.map (collectSpec d vars funcs (k + i)) := by
+    (i : Nat) : (collectAux d vars funcs k vs)[i]? =
+      vs[i]?.map (fun v => if skipped d v then [] else collectSpec d vars funcs (k + i) v) := by
   induction vs generalizing k i with
   | nil => simp [collectAux]
   | cons v vs ih =>
     cases i with
     | zero => simp [collectAux]
     | succ i =>
-      simp only [collectAux, List.getElem?_cons_succ, ih]
-      congr 2
-      omega
+      have hk : k + 1 + i = k + (i + 1) := by omega
+      simp only [collectAux, List.getElem?_cons_succ, ih, hk]
 
 /-- the specifications the ordering code sees are the initialisation steps -/
 theorem specsY_expected (vars : List VarSpec) : specsY Expected.C15.depFacts vars = stepsGo vars := rfl
@@ -526,7 +526,8 @@ theorem collectDepsY_sets (p : Pkg) :
   cases (stepsGo p.vars)[i]? with
   | none => simp
   | some v =>
-    simp only [Option.map_some, Option.getD_some]
+    have hs : skipped Expected.C15.depFacts v = false := rfl
+    simp only [Option.map_some, Option.getD_some, hs, Bool.false_eq_true, if_false]
     rw [mem_collectSpec_expected, mem_stepDeps]
 
 end YaegiVerif.Proofs.C15
